@@ -23,11 +23,14 @@ out = []
 sys.setrecursionlimit(20000)
 over = 0
 for t in texts:
+    noprof, runs = False, 2
+    if isinstance(t, dict):
+        t, noprof, runs = t["t"], bool(t.get("noprof")), int(t.get("runs", 2))
     if over >= 2:
         out.append([-3.0, 0])       # not measured: two parses already ran over the budget, which the caller reports
         continue
     best = None
-    for _ in range(2):
+    for _ in range(runs):
         t0 = time.process_time()
         signal.setitimer(signal.ITIMER_VIRTUAL, CAP)
         try:
@@ -44,7 +47,7 @@ for t in texts:
         dt = time.process_time() - t0
         best = dt if best is None else min(best, dt)
     calls = [0]
-    if best is not None and best >= 0:
+    if best is not None and best >= 0 and not noprof:
         def prof(frame, event, arg):
             if event == "call" or event == "c_call":
                 calls[0] += 1
